@@ -267,7 +267,7 @@ theorem cnt_set (l : List ArgSt) (i j : Nat) (st : ArgSt) :
   · simp [h1]
 
 /-- `assignValue` for an argument that is not deprecated, when no inversion is pending -/
-theorem assignValue_eq {h : HState} {i : Nat} {d : ArgDef} {v : Word} {f : Bool}
+theorem assignValue_eq_countAssign {h : HState} {i : Nat} {d : ArgDef} {v : Word} {f : Bool}
     (hdep : d.deprecated = false) (hinv : h.inverted = false) :
     assignValue h i d v f = (countAssign h.fromSrc d (h.args.getD i default) v >>= fun st' =>
       pure { h with args := h.args.set i st', pending := activateConstraints d.constraints h.pending,
@@ -301,13 +301,13 @@ theorem applyUse_of {cfg : Cfg} {g : HState} {u : Use} {d : ArgDef} {st' : ArgSt
     unfold handleIdentifiedArg
     rw [hp rfl, hg rfl]
     simp only [Res.bind_ok]
-    rw [assignValue_eq hdep (by exact hinv)]
+    rw [assignValue_eq_countAssign hdep (by exact hinv)]
     simp only
     rw [hc]
     exact ⟨_, rfl, rfl, rfl, rfl, rfl, rfl, rfl, rfl⟩
   | false =>
     simp only [Bool.false_eq_true, if_false]
-    rw [assignValue_eq hdep hinv, hc, hp' rfl, hg' rfl]
+    rw [assignValue_eq_countAssign hdep hinv, hc, hp' rfl, hg' rfl]
     exact ⟨_, rfl, rfl, rfl, rfl, rfl, rfl, hinv, rfl⟩
 
 /-- the budget list before a use: a command-line use takes one unit of its argument's budget, a use
